@@ -233,16 +233,28 @@ systems = [
     [({"A": 1}, {"B": 1}, MA("k1")), ({"B": 1, "C": 1}, {"A": 1}, "k2")],
     [({"A": 2}, {"C": 1}, "k1"), ({"C": 1}, {"A": 1, "B": 1}, MA("k2")), ({"A": 1, "B": 1}, {"C": 1}, "k3")],
     [({"A": 1}, {"B": 1}, "k1"), ({"B": 2}, {"C": 1}, "k2"), ({"C": 1}, {"A": 2}, MA("k3"))],
+    [({"A": 1}, {"B": 1}, "k1"), ({"B": 1}, {"A": 1}, "k1"), ({"A": 1, "B": 1}, {"C": 1}, "k2")],
+    [({}, {"A": 1}, "k1"), ({"A": 1}, {"B": 1}, "k2"), ({"B": 2}, {"C": 1}, MA("k3"))],
 ]
 spec = systems[%(si)d]
 rsys = ReactionSystem([Reaction(dict(r_), dict(p_), par) for r_, p_, par in spec], "A B C")
 odesys, extra = get_odesys(rsys, include_params=False, unit_registry=SI_base_registry)
 P = dict(zip(odesys.param_names, odesys.params)); Y = dict(zip(odesys.names, odesys.dep))
+pname = [par if isinstance(par, str) else par.unique_keys[0] for r_, p_, par in spec]
 bad = []
+from chempy.units import get_derived_unit, to_unitless, unit_of
+if len(extra["p_units"]) != len(odesys.param_names): bad.append("p_units has %%d entries for %%d parameters" %% (len(extra["p_units"]), len(odesys.param_names)))
+conc_u, time_u = get_derived_unit(SI_base_registry, "concentration"), get_derived_unit(SI_base_registry, "time")
+for i, (r_, p_, par) in enumerate(spec):
+    pu = dict(zip(odesys.param_names, extra["p_units"])).get(pname[i])
+    try:
+        to_unitless(1 * pu, conc_u ** (1 - sum(r_.values())) / time_u)
+    except Exception as e:
+        bad.append("unit reported for %%s is %%s: not concentration^(1-%%d)/time" %% (pname[i], pu, sum(r_.values())))
 for key in "ABC":
     tot = 0
     for i, (r_, p_, par) in enumerate(spec):
-        rate = P["k%%d" %% (i + 1)]
+        rate = P[pname[i]]
         for sk, nu in r_.items(): rate = rate * Y[sk] ** nu
         tot = tot + (p_.get(key, 0) - r_.get(key, 0)) * rate
     got = odesys.exprs[list(odesys.names).index(key)]
@@ -302,6 +314,9 @@ def task_p_units():
         [({"A": 1}, {"B": 1}, MA("k1")), ({"B": 1, "C": 1}, {"A": 1}, "k2")],
         [({"A": 2}, {"C": 1}, "k1"), ({"C": 1}, {"A": 1, "B": 1}, MA("k2")), ({"A": 1, "B": 1}, {"C": 1}, "k3")],
         [({"A": 1}, {"B": 1}, "k1"), ({"B": 2}, {"C": 1}, "k2"), ({"C": 1}, {"A": 2}, MA("k3"))],
+        # the SAME named constant on two reactions, followed by one of another dimension; and a zero-order source term
+        [({"A": 1}, {"B": 1}, "k1"), ({"B": 1}, {"A": 1}, "k1"), ({"A": 1, "B": 1}, {"C": 1}, "k2")],
+        [({}, {"A": 1}, "k1"), ({"A": 1}, {"B": 1}, "k2"), ({"B": 2}, {"C": 1}, MA("k3"))],
     ]
     for si, spec in enumerate(systems):
         ob += 1
@@ -311,11 +326,13 @@ def task_p_units():
             P = dict(zip(odesys.param_names, odesys.params))
             Y = dict(zip(odesys.names, odesys.dep))
             conv = Conv()
-            conds = [z3.BoolVal(list(odesys.param_names) == ["k%d" % (i + 1) for i in range(len(spec))])]
+            pname = [par if isinstance(par, str) else par.unique_keys[0] for r_, p_, par in spec]
+            uniq = [n_ for i_, n_ in enumerate(pname) if n_ not in pname[:i_]]
+            conds = [z3.BoolVal(list(odesys.param_names) == uniq and len(extra["p_units"]) == len(uniq))]
             for key in "ABC":
                 tot = 0
                 for i, (r_, p_, par) in enumerate(spec):
-                    rate = P["k%d" % (i + 1)]
+                    rate = P[pname[i]]
                     for sk, nu in r_.items():
                         rate = rate * Y[sk] ** nu
                     tot = tot + (p_.get(key, 0) - r_.get(key, 0)) * rate
@@ -323,7 +340,7 @@ def task_p_units():
             pu = dict(zip(odesys.param_names, extra["p_units"]))
             for i, (r_, p_, par) in enumerate(spec):
                 n_ = sum(r_.values())
-                conds.append(eq_term(pu["k%d" % (i + 1)], monomial(reg, (3 * (n_ - 1), 0, -1, 0, 0, 1 - n_))))
+                conds.append(eq_term(pu[pname[i]], monomial(reg, (3 * (n_ - 1), 0, -1, 0, 0, 1 - n_))))
             sv = z3.Solver()
             sv.set("timeout", 20000)
             sv.add(*assum)
